@@ -442,16 +442,33 @@ func runCase(run *evid.Run, idx int) {
 		if c.Stop > 0 && c.Stop < limit {
 			limit = c.Stop
 		}
-		isPrefix := len(got) <= len(expect)
-		for i := 0; isPrefix && i < len(got); i++ {
-			isPrefix = got[i] == expect[i]
+		// the items delivered must be an ordered subsequence of the expected listing (a merging
+		// wrapper may legitimately have lost a failing member's later items before the error) …
+		j := 0
+		isSub := true
+		for _, g := range got {
+			for j < len(expect) && expect[j] != g {
+				j++
+			}
+			if j == len(expect) {
+				isSub = false
+				break
+			}
+			j++
 		}
-		if !isPrefix {
-			run.Violation(key("items-under-fault"), fmt.Sprintf("under an injected fault the delivered items %q are not a prefix of the expected listing %q", got, expect), w)
+		if !isSub {
+			run.Violation(key("items-under-fault"), fmt.Sprintf("under an injected fault the delivered items %q are not an ordered subsequence of the expected listing %q", got, expect), w)
 			return
 		}
-		if out.OK && len(got) < limit {
-			run.Violation(key("silently-shortened"), fmt.Sprintf("an injected %s produced a shortened listing (%d of %d items) without an error", c.Fault, len(got), limit), w)
+		// … and anything short of the complete (or consumer-limited) listing must end with an error
+		complete := len(got) >= limit && strings.Join(got[:limit], "\x00") == strings.Join(expect[:limit], "\x00")
+		stoppedByConsumer := c.Stop > 0 && len(got) >= c.Stop
+		if stoppedByConsumer {
+			// a consumer that declined further items never reaches the trailing error
+			run.Count("faults_cut_short_by_consumer", 1)
+		}
+		if out.OK && !complete && !stoppedByConsumer {
+			run.Violation(key("silently-shortened"), fmt.Sprintf("an injected %s produced an incomplete listing (%d items, %d expected) without an error", c.Fault, len(got), limit), w)
 			return
 		}
 		if !out.OK {
@@ -539,7 +556,7 @@ func main() {
 	run.SetRule("a case = one listing (Repositories | Tags | Referrers) over a registry stack drawn from {mem | unify(mem,mem)} + up to 4 layers of {http(page size, server max, Link on/off), debug, select, sub}, a known item set whose size sits around multiples of the page size, a start point (absent, an element, just after/before an element, before the first, beyond the last, URL metacharacters), an optional early-stopping consumer and an optional injected fault. The expected listing is computed from the set the harness stored. " +
 		"distinct_nontrivial = distinct (list kind, layer sequence, size class vs page size, page sizes, start class, early stop?, fault); trivial = empty set without start point.")
 	run.Assume("a client page size above the server's MaxListPageSize is legitimately refused; referrers are not paged by the protocol")
-	run.Assume("under an injected fault the delivered items must be a prefix of the expected listing and a shortened result must carry an error")
+	run.Assume("under an injected fault the delivered items must be an ordered subsequence of the expected listing and anything short of the complete listing must carry an error")
 	n := run.N(15000, 300000)
 	for i := 0; i < n; i++ {
 		runCase(run, i)
